@@ -16,6 +16,8 @@ T = ber.prim
 C = ber.cons
 S = ber.bstr
 
+# SearchResultDone with result code 3 and a referral of its own (as in the symbolic script)
+DONE_REF = {'cl': 1, 'id': 5, 'c': [{'cl': 0, 'id': 10, 'p': [3]}, {'cl': 0, 'id': 4, 'p': []}, {'cl': 0, 'id': 4, 'p': []}, {'cl': 2, 'id': 3, 'c': [{'cl': 0, 'id': 4, 'p': list(b'ldap://done/')}]}]}
 SCRIPTS = ['ED', 'ERID', 'D', 'EX', 'RED', 'ID', 'X', 'EED']       # E entry, R reference, I intermediate, D done, X channel closed
 
 
@@ -188,7 +190,7 @@ class StreamMachine(Lane):
         replies = []; close = False
         for k in cd['script']:
             if k in kinds: replies.append({'id': 'req', 'op': kinds[k]})
-            elif k == 'D': replies.append({'id': 'req', 'op': okres(5, 3)})
+            elif k == 'D': replies.append({'id': 'req', 'op': DONE_REF})
             else: close = True
         steps = [BIND, stream_start(['EntriesOnly'] if cd['adapter'] == 'EntriesOnly' else [])] + [{'do': self.callname(k)} for k in cd['calls']]
         case = script(steps, [BIND_OK, {'replies': replies, 'close_after': close}])
@@ -211,8 +213,8 @@ class StreamMachine(Lane):
             elif k == 'n' and want[0] == 'some' and not (isinstance(r, dict) and r.get('ok')): bad = f'next() returned {json.dumps(r)[:80]}, expected an item'
             elif k == 'n' and want[0] == 'err' and not (isinstance(r, dict) and r.get('err') == 'EndOfStream'): bad = f'next() returned {json.dumps(r)[:80]}, expected EndOfStream'
             elif k == 'f' and want[0] == 'rc' and not (isinstance(r, dict) and r.get('ok', {}).get('rc') == want[1]): bad = f'finish() returned {json.dumps(r)[:80]}, expected rc {want[1]}'
-            elif k == 'f' and want[0] == 'server' and not (isinstance(r, dict) and r.get('ok', {}).get('rc') == 3): bad = f'finish() returned {json.dumps(r)[:80]}, expected the server result (rc 3)'
-            elif k == 'f' and want[0] == 'server' and cd['adapter'] == 'EntriesOnly' and len(r['ok']['refs']) != len(want[3]): bad = f'finish() referral list {r["ok"]["refs"]} does not contain the {len(want[3])} reference URI(s)'
+            elif k == 'f' and want[0] == 'server' and not (isinstance(r, dict) and r.get('ok', {}).get('rc') == 3 and (cd['adapter'] == 'EntriesOnly' or [bytes(x) for x in r['ok']['refs']] == [b'ldap://done/'])): bad = f'finish() returned {json.dumps(r)[:80]}, expected the server result (rc 3, its referral)'
+            elif k == 'f' and want[0] == 'server' and cd['adapter'] == 'EntriesOnly' and [bytes(x) for x in r['ok']['refs']] != [b'ldap://done/'] + [b'ldap://x/'] * len(want[3]): bad = f'finish() referral list {[bytes(x) for x in r["ok"]["refs"]]} is not the result\'s own referral followed by the {len(want[3])} reference URI(s)'
             if bad:
                 role = 'direct-stream' if cd['adapter'] != 'EntriesOnly' else 'adapted-stream'
                 kind = 'panic' if 'panicked' in bad else ('state' if k == 's' else self.callname(k))
